@@ -14,44 +14,6 @@ import RegexVerif.Lemmas.Scan
 namespace RegexVerif.Props.C07
 open RegexVerif RegexVerif.Scan RegexVerif.Lemmas.Scan
 
-/-! ### concrete instances used by the `example`s: the tables of `a*` on "baa" -/
-
-/-- left-to-right `a*` on "baa": attempt at 0 ↦ empty, at 1 ↦ "aa", at 2 ↦ "a", at 3 ↦ empty -/
-def exL : Nat → Option (Nat × Nat)
-  | 0 => some (0, 0) | 1 => some (1, 2) | 2 => some (2, 1) | 3 => some (3, 0) | _ => none
-
-/-- right-to-left `a*` on "baa", indexed by the position the attempt starts at (the match's end) -/
-def exR : Nat → Option (Nat × Nat)
-  | 3 => some (1, 2) | 2 => some (1, 1) | 1 => some (1, 0) | 0 => some (0, 0) | _ => none
-
-def exEngine (att : Nat → Option (Nat × Nat)) : Engine :=
-  { finder := fun _ pos => (true, pos), after := fun _ q => q, attempt := fun _ => att, minLen := 0 }
-
-theorem exEngine_sound (rtl : Bool) (n : Nat) (att : Nat → Option (Nat × Nat)) (h : AttemptShape rtl n att) :
-    (exEngine att).Sound rtl n where
-  shape := fun _ _ => h
-  finder := by
-    intro ts _ pos hpos
-    cases rtl
-    · exact ⟨Nat.le_refl _, hpos, fun _ p h1 h2 => absurd h2 (by simp [exEngine]; omega), fun h => by simp [exEngine] at h⟩
-    · exact ⟨Nat.le_refl _, fun _ p h1 h2 => absurd h1 (by simp [exEngine]; omega), fun h => by simp [exEngine] at h⟩
-  after := by
-    intro ts _ q hq _
-    cases rtl
-    · exact ⟨Nat.le_refl _, hq, fun p h1 h2 => absurd h2 (by simp [exEngine]; omega)⟩
-    · exact ⟨Nat.le_refl _, fun p h1 h2 => absurd h1 (by simp [exEngine]; omega)⟩
-  minLen := by intro ts _ p i l _ _; simp [exEngine]
-
-theorem exL_shape : AttemptShape false 3 exL := by
-  intro p i l hp h
-  match p, hp, h with
-  | 0, _, h | 1, _, h | 2, _, h | 3, _, h => simp [exL] at h; simp; omega
-
-theorem exR_shape : AttemptShape true 3 exR := by
-  intro p i l hp h
-  match p, hp, h with
-  | 0, _, h | 1, _, h | 2, _, h | 3, _, h => simp [exR] at h; simp; omega
-
 /-! ### one step: FindNextMatch -/
 
 /-- **Strict order.** If `m` is a match returned on an input of `n` runes and `FindNextMatch(m)`
@@ -162,28 +124,14 @@ example : iterate (exEngine exR) true 3 = [⟨1, 2, 1⟩, ⟨1, 0, 1⟩, ⟨0, 0
     truncated to `k` results (`k < 0`: all), and `nil` when that is empty (in particular for
     `k = 0`). Holds for any matcher: the loop re-runs the very same scans. -/
 theorem findAll_eq (E : Engine) (rtl : Bool) (n : Nat) (k : Int) :
-    findAll E rtl n k = findAllSpec rtl k (iterate E rtl n) := by
-  unfold findAll findAllSpec iterate firstMatch
-  by_cases hk : k = 0
-  · simp [hk, takeK_zero]
-  · rw [if_neg hk]
-    have := findAllLoop_eq E rtl n (n + 2) (firstStart rtl n) (-1) none k
-    simp only [prevEndOf] at this
-    rw [this]
-    simp
+    findAll E rtl n k = findAllSpec rtl k (iterate E rtl n) :=
+  findAll_eq_spec E rtl n k
 
 /-- The adapter's `forEachStringMatch` (behind `FindAllString`, `FindAllStringSubmatch`,
     `FindAllStringSubmatchIndex`) delivers the same sequence, with the same nil-ness. -/
 theorem compatAll_eq (E : Engine) (rtl : Bool) (n : Nat) (k : Int) :
-    compatAll E rtl n k = findAllSpec rtl k (iterate E rtl n) := by
-  unfold compatAll findAllSpec compatForEach iterate
-  by_cases hk : k = 0
-  · simp [hk, takeK_zero]
-  · rw [if_neg hk]
-    have := compatLoop_eq E rtl n (n + 2) (firstMatch E rtl n) none k
-    simp only [prevEndOf] at this
-    rw [this]
-    simp
+    compatAll E rtl n k = findAllSpec rtl k (iterate E rtl n) :=
+  compatAll_eq_spec E rtl n k
 
 -- "baa", a*: left-to-right the empty match at 3 follows "aa" directly and is dropped; right-to-left
 -- the empty match at 1 is (the case commit b1f352b repaired)
